@@ -206,11 +206,37 @@ def _expand_key(k, st, fn):
     return [k]
 
 
+def _literal_seq(node, fn):
+    """elements of a literal tuple/list, written in place or bound once to a local of `fn`"""
+    if isinstance(node, (ast.Tuple, ast.List)):
+        return list(node.elts)
+    if isinstance(node, ast.Name):
+        defs = [st for st in walk_no_nested(fn) if isinstance(st, ast.Assign) and any(isinstance(t, ast.Name) and t.id == node.id for t in st.targets)]
+        if len(defs) == 1:
+            return _literal_seq(defs[0].value, fn)
+    return None
+
+
 def _dict_subkeys(value, fn, methods):
     """sub-keys of a dict-valued right-hand side: a dict literal, or a local bound to self.<getter>() whose return
     value is a local dict filled by literal subscript stores"""
     if isinstance(value, ast.Dict):
         return [k.value for k in value.keys if isinstance(k, ast.Constant) and isinstance(k.value, str)]
+    if isinstance(value, ast.DictComp) and len(value.generators) == 1 and not value.generators[0].ifs:
+        # {key: ... for key, other in <literal table>}: the keys the table lists
+        g_ = value.generators[0]
+        table = _literal_seq(g_.iter, fn)
+        ks = []
+        for row in table or []:
+            bind = {}
+            if isinstance(g_.target, ast.Name):
+                bind[g_.target.id] = row
+            elif isinstance(g_.target, ast.Tuple) and isinstance(row, (ast.Tuple, ast.List)) and len(row.elts) == len(g_.target.elts):
+                bind = {t_.id: r_ for t_, r_ in zip(g_.target.elts, row.elts) if isinstance(t_, ast.Name)}
+            k_ = bind.get(value.key.id) if isinstance(value.key, ast.Name) else value.key
+            if isinstance(k_, ast.Constant) and isinstance(k_.value, str):
+                ks.append(k_.value)
+        return ks
     if isinstance(value, ast.Name):
         for st in walk_no_nested(fn):
             if isinstance(st, ast.Assign) and isinstance(st.targets[0], ast.Name) and st.targets[0].id == value.id:
@@ -220,9 +246,16 @@ def _dict_subkeys(value, fn, methods):
         if d and d.startswith("self.") and d[5:] in methods:
             g = methods[d[5:]]
             rets = [r for r in walk_no_nested(g) if isinstance(r, ast.Return) and isinstance(r.value, ast.Name)]
+            direct = [r for r in walk_no_nested(g) if isinstance(r, ast.Return) and isinstance(r.value, (ast.Dict, ast.DictComp))]
+            if direct and not rets:
+                return _dict_subkeys(direct[-1].value, g, methods)
             if rets:
                 name = rets[-1].value.id
                 ks = []
+                for st in walk_no_nested(g):
+                    if isinstance(st, ast.Assign) and isinstance(st.targets[0], ast.Name) and st.targets[0].id == name \
+                            and isinstance(st.value, (ast.Dict, ast.DictComp)):
+                        ks.extend(_dict_subkeys(st.value, g, methods))
                 for st in walk_no_nested(g):
                     if isinstance(st, ast.Assign) and isinstance(st.targets[0], ast.Subscript):
                         base, kk = key_chain(st.targets[0])
@@ -356,18 +389,51 @@ def analyse_setters(index, rep):
             d = dotted(st.test)
             if d and d.endswith("_SET"):
                 check_flags.add(d[5:])
-        elif isinstance(st, ast.For) and isinstance(st.target, ast.Name) and isinstance(st.iter, (ast.Tuple, ast.List)) \
-                and all(isinstance(e, ast.Constant) and isinstance(e.value, str) for e in st.iter.elts):
-            # for flag in ("A_SET", ...): assert getattr(self, flag)
+        elif isinstance(st, ast.For) and isinstance(st.target, ast.Name):
+            elts = _literal_seq(st.iter, check)
+            if not elts or not all(isinstance(e, ast.Constant) and isinstance(e.value, str) for e in elts):
+                continue
+            # for flag in ("A_SET", ...): assert getattr(self, flag)   (the name possibly assembled: flag + "_SET")
             for a_ in st.body:
                 if isinstance(a_, ast.Assert) and isinstance(a_.test, ast.Call) and dotted(a_.test.func) == "getattr" and len(a_.test.args) == 2 \
-                        and norm_src(a_.test.args[0]) == "self" and norm_src(a_.test.args[1]) == st.target.id:
-                    check_flags |= {e.value for e in st.iter.elts if e.value.endswith("_SET")}
+                        and norm_src(a_.test.args[0]) == "self":
+                    for e in elts:
+                        try:
+                            nm = str_eval(a_.test.args[1], st.target.id, e.value)
+                        except AnalysisError:
+                            nm = None
+                        if isinstance(nm, str) and nm.endswith("_SET"):
+                            check_flags.add(nm)
     setters = {}
     helpers = {}
+    # a method holding only one half of the protocol (the assert, or the set) that the dispatcher never calls and other methods of the class do
+    # is a shared tail/head of those setters: read as part of each of them (its statements inlined at the call), itself a helper
+    from .core import flatten_function
+    halves = {}
     for name, fn in methods.items():
         if name in NON_SETTERS:
             continue
+        top = [s for s in fn.body if not (isinstance(s, ast.Expr) and isinstance(s.value, ast.Constant))]
+        n_a = sum(1 for s in top if flag_of_assert(s))
+        n_s = sum(1 for s in walk_no_nested(fn) if flag_of_set(s))
+        if (n_a == 0) != (n_s == 0):
+            halves[name] = fn
+    run_calls = {n.func.attr for n in ast.walk(index.module(RUN)) if isinstance(n, ast.Call) and isinstance(n.func, ast.Attribute)}
+    callers_of = {h: [m for m, f in methods.items() if m != h and any(isinstance(c, ast.Call) and dotted(c.func) == "self." + h for c in ast.walk(f))]
+                  for h in halves}
+    halves = {h: f for h, f in halves.items() if h not in run_calls and callers_of[h]}
+    flat_view = {}
+    for h in halves:
+        for m in callers_of[h]:
+            if m not in halves and m not in flat_view:
+                flat_view[m] = flatten_function(methods[m], halves, (), 2, cls_name="Scenarios")
+    for name, fn in methods.items():
+        if name in NON_SETTERS:
+            continue
+        if name in halves:
+            helpers[name] = fn
+            continue
+        fn = flat_view.get(name, fn)
         body = [s for s in fn.body if not (isinstance(s, ast.Expr) and isinstance(s.value, ast.Constant))]
         asserts = [(i, flag_of_assert(s)) for i, s in enumerate(body) if flag_of_assert(s)]
         sets = [(i, flag_of_set(s)) for i, s in enumerate(body) if flag_of_set(s)]
